@@ -50,8 +50,10 @@ ASSUMPTIONS = [
 TRUSTED = [
     'modelled in Lean (Model/TofKernels.lean): the 9 elastic kernels, time_at_sample_from_tof, one component of '
     'Q_elements_from_wavelength; scipp dtype promotion',
-    'oracle only (Lean models belong to C03/C04/C05/C11): L1, L2, two_theta, scattering_angles_with_gravity, '
-    'scattering_angle_in_yz_plane, _drop_due_to_gravity, energy_transfer_{direct,indirect}_from_tof, propagate_times',
+    'not modelled here but by C03/C04/C05/C08/C11 (Model/Beamline, Gravity, Inelastic, QVec, Cascade): L1, L2, Ltotal, two_theta, the '
+    'gravity kernels, _drop_due_to_gravity, energy_transfer_{direct,indirect}_from_tof, propagate_times, Q vector, hkl; C07 proves '
+    'unit equivariance / output unit / dtype table about THOSE definitions (Props/C07.lean imports them) and ties them to the code '
+    'only through its own oracle on the grid; the model/implementation correspondence of those models is run by their own checks',
     'exact reference: 60-digit decimal arithmetic with Taylor sin / arctan and Machin pi (harness/tofkernels.py)',
 ]
 
@@ -1114,7 +1116,9 @@ def _replay_reexpress_generic(spec, w, res):
 LEVEL_TEXT = (
     'Lean 4 theorems about the kernels of Model/TofKernels.lean (the definitions executed against the Python code): unit '
     'equivariance over the reals for arbitrary positive unit scales of every operand (9 elastic kernels, time_at_sample_from_tof, '
-    'the components of Q_elements_from_wavelength) with the result in the documented unit; the dtype contract decided over '
+    'Q_elements_from_wavelength; and, about the models of C03/C04/C05/C08/C11: L1, L2, Ltotal, two_theta, _drop_due_to_gravity, the '
+    'gravity angle kernels on both code paths and the yz variant, both inelastic kernels, propagate_times, hkl) with the result in the '
+    'documented unit (unit algebra of scale x dimension replayed per kernel); one table theorem all_kernels_dtype_contract; the dtype contract decided over '
     '{float64,float32,int64,int32}^arity on the abstract (dtype-only) evaluation of the same kernel definitions, and for all '
     'values the executable model\'s dtype tag equals that abstract evaluation. Tied to the code by a correspondence over the full '
     'units x dtypes grid; an independent exact-decimal oracle covers the full grid of every conversion/geometry kernel including '
